@@ -202,31 +202,14 @@ def r10c(model, ctx):
                   f"Shape.cast(range) must derive the signedness from *both* ends (`obj[0] < 0 or obj[-1] < 0`: a descending range "
                   f"ends on its smallest element) and the width as max(bits_for(first, signed), bits_for(last, signed)), with "
                   f"width 0 when the only element is 0; found {unparse(p.ret)}", f"{AST_PY}:{rng[0].lineno}")
+    from . import c01
     fe = model.func(f"{AST_PY}::Shape._cast_plain_enum")
-    loops = [s for s in fe.body if isinstance(s, ast.For)]
-    need(len(loops) == 1, "_cast_plain_enum: member loop not found")
-    paths = [p for p in run_paths(loops[0].body) if p.how == "fall"]
-    got = set()
-    for p in paths:
-        conds = tuple(sorted((unparse(t), pol) for t, pol in p.conds))
-        got.add((conds, unparse(p.env.get("signed", ast.Name("signed"))), unparse(p.env.get("width"))))
-    MS = "Const.cast(member.value).shape()"
-    want = {
-        (((f"not signed and {MS}.signed", True),), "True", f"max(width + 1, {MS}.width)"),
-        (tuple(sorted(((f"not signed and {MS}.signed", False), (f"signed and (not {MS}.signed)", True)))), "signed", f"max(width, {MS}.width + 1)"),
-        (tuple(sorted(((f"not signed and {MS}.signed", False), (f"signed and (not {MS}.signed)", False)))), "signed", f"max(width, {MS}.width)"),
-    }
-    ctx.check(got == want, R, "Shape._cast_plain_enum", "three cases: first signed member widens by one; unsigned member under signed needs +1; else max",
-              f"enum shape unification deviates from the three mixed-sign cases; found {sorted(got ^ want)}", f"{AST_PY}:{fe.lineno}")
-    ok = any(isinstance(s, ast.Return) and unparse(s.value) == "Shape(width, signed)" for s in fe.body) and \
-        any(unparse(s) == "signed = False" for s in fe.body) and any(unparse(s) == "width = 0" for s in fe.body)
-    ctx.check(ok, R, "Shape._cast_plain_enum:init", "starts from unsigned(0)", "enum unification must start from unsigned(0)", f"{AST_PY}:{fe.lineno}")
-    fu = model.func(f"{AST_PY}::Shape._unify")
-    t = unparse(fu)
-    ok = "return unsigned(unsigned_width)" in t and "return signed(max(signed_width, unsigned_width + 1))" in t
-    ctx.check(ok, R, "Shape._unify", "all unsigned -> max; otherwise signed(max(signed, unsigned + 1))",
-              "Shape._unify must give unsigned(max) for all-unsigned inputs and signed(max(signed_width, unsigned_width + 1)) otherwise",
-              f"{AST_PY}:{fu.lineno}")
+    # the shape of a plain enumeration is the unification of its members' shapes (starting from unsigned(0)); decided by
+    # partial evaluation over member lists of every signedness pattern, whatever the accumulation is written like
+    c01.check_unify(model, ctx, R, "Shape._cast_plain_enum", qual="Shape._cast_plain_enum", wrap=lambda sh: {"value": sh},
+                    hooks={"Const.cast": lambda args: args[0]})
+    from . import c01
+    c01.check_unify(model, ctx, R, "Shape._unify")
 
 
 REF_CONST_WRAP = """
